@@ -50,6 +50,7 @@ type stub struct {
 	cancelled            func() bool
 	readsAfterCancelDone int
 	concurrent           int // reads that began while another read was in progress
+	zeroCalls            int // calls of the zero-copy read method
 	// concatenation of finite sources: the sub-source that must be read now,
 	// reads of a sub-source other than that one
 	curSub, wrongSub int
@@ -66,10 +67,10 @@ func (s *sub) ReadPacketData() ([]byte, gopacket.CaptureInfo, error) {
 	if s.idx != s.st.curSub {
 		s.st.wrongSub++
 	}
-	return s.st.read()
+	return s.st.read(false)
 }
 
-func (s *stub) read() ([]byte, gopacket.CaptureInfo, error) {
+func (s *stub) read(shared bool) ([]byte, gopacket.CaptureInfo, error) {
 	if s.termSeen {
 		s.afterTerm++
 	}
@@ -89,7 +90,7 @@ func (s *stub) read() ([]byte, gopacket.CaptureInfo, error) {
 	if it.err != nil {
 		return nil, gopacket.CaptureInfo{}, it.err
 	}
-	if s.zeroCopy {
+	if shared {
 		// every packet comes back in the same backing buffer, overwritten by the next read
 		for i := range s.shared {
 			s.shared[i] = 0xAA
@@ -100,8 +101,14 @@ func (s *stub) read() ([]byte, gopacket.CaptureInfo, error) {
 	return append([]byte(nil), it.data...), it.ci, nil
 }
 
-func (s *stub) ReadPacketData() ([]byte, gopacket.CaptureInfo, error)         { return s.read() }
-func (s *stub) ZeroCopyReadPacketData() ([]byte, gopacket.CaptureInfo, error) { return s.read() }
+// The stub offers both calls, as pcap handles and the pcapgo readers do: the
+// copying one returns memory that belongs to the caller, the zero-copy one
+// always returns its one reused buffer.
+func (s *stub) ReadPacketData() ([]byte, gopacket.CaptureInfo, error) { return s.read(false) }
+func (s *stub) ZeroCopyReadPacketData() ([]byte, gopacket.CaptureInfo, error) {
+	s.zeroCalls++
+	return s.read(true)
+}
 
 var terminals = []error{io.EOF, io.ErrUnexpectedEOF, io.ErrNoProgress, io.ErrClosedPipe, io.ErrShortBuffer, syscall.EBADF, errors.New("read tcp: use of closed file")}
 
@@ -128,23 +135,27 @@ func simC16(c *sim.Ctx) {
 	if !zero && c.Chance(250) {
 		nsub = 2 + c.Draw(3)
 	}
+	// decode options assigned to the packet source's fields after construction
+	late := c.Chance(300)
 	// the consumer asks for the channel a second time at this step (same channel, no second reader)
 	again := -1
 	if channel && c.Chance(200) {
 		again = c.Draw(20)
 	}
-	c.Ev("config", b2i(zero), b2i(channel), int64(opt), int64(cancelAt), b2i(abandon), int64(nsub), int64(again))
+	c.Ev("config", b2i(zero), b2i(channel), int64(opt), int64(cancelAt), b2i(abandon), int64(nsub), int64(again), b2i(late))
 	bubble.Run(c, func(b *bubble.B) {
 		st := &stub{feed: make(chan item), zeroCopy: zero, shared: make([]byte, 256)}
 		var ps *gopacket.PacketSource
 		var opts []gopacket.PacketSourceOption
-		switch opt {
-		case 1:
-			opts = append(opts, gopacket.WithNoCopy(true))
-		case 2:
-			opts = append(opts, gopacket.WithLazy(true))
-		case 3:
-			opts = append(opts, gopacket.WithPool(true))
+		if !late {
+			switch opt {
+			case 1:
+				opts = append(opts, gopacket.WithNoCopy(true))
+			case 2:
+				opts = append(opts, gopacket.WithLazy(true))
+			case 3:
+				opts = append(opts, gopacket.WithPool(true))
+			}
 		}
 		if zero {
 			ps = gopacket.NewZeroCopyPacketSource(st, gopacket.DecodePayload, opts...)
@@ -156,6 +167,18 @@ func simC16(c *sim.Ctx) {
 			ps = gopacket.NewPacketSource(gopacket.ConcatFinitePacketDataSources(subs...), gopacket.DecodePayload, opts...)
 		} else {
 			ps = gopacket.NewPacketSource(st, gopacket.DecodePayload, opts...)
+		}
+		if late {
+			// the decode options are exported fields of the packet source: set
+			// them after construction, as much existing code does
+			switch opt {
+			case 1:
+				ps.NoCopy = true
+			case 2:
+				ps.Lazy = true
+			case 3:
+				ps.DecodeOptions = gopacket.DecodeOptions{Pool: true}
+			}
 		}
 		var sent []item       // packets the stub returned without error, in order
 		var recv []got        // what the consumer obtained
@@ -589,7 +612,9 @@ func simC16(c *sim.Ctx) {
 				c.Fail("metadata", "truncated-flag", "PacketSource", "packet %d: Truncated=%v with capture length %d of %d", k-1, m.Truncated, it.ci.CaptureLength, it.ci.Length)
 			}
 			// a delivered packet is never altered by later reads (copying decode)
-			if opt != 1 && !bytes.Equal(g.p.Data(), it.data) {
+			// (also with NoCopy when the data source is a copying one: what
+			// ReadPacketData returned belongs to the packet)
+			if !(opt == 1 && zero) && !bytes.Equal(g.p.Data(), it.data) {
 				c.Fail("intact", "altered-by-later-read", "PacketSource", "packet %d changed after later reads of the data source (zero-copy source %v, options %d)", k-1, zero, opt)
 			}
 		}
